@@ -135,6 +135,9 @@ def detect(base, cur_inv, cur_txt):
                 return bool(sr_) and _sub(json.dumps(shp(n_)), sr_) == json.dumps(_shape(b_adts[m]))
             cands = [n for n in new if same_shape(n)]
             cands = [n for n in cands if _seg_renames(m, n) or n.rsplit('::', 1)[-1] == m.rsplit('::', 1)[-1] or shp(n) == _shape(b_adts[m])]
+            same_name = [n for n in cands if n.rsplit('::', 1)[-1] == m.rsplit('::', 1)[-1]]
+            if same_name:
+                cands = same_name       # (several types of one shape moved: the one that kept its name is the one)
             if len(cands) != 1:
                 continue
             done_m.add(m)
